@@ -151,3 +151,91 @@ def _left_case_excluded(db, fn: FuncInfo, node_name: str, selector_classes: List
                     break
     missing = sorted(c.name for c in selector_classes if c.name not in covered)
     return sorted(covered), missing
+
+
+# ---------------------------------------------------------------------------------- SELECT-PER-ROW
+SELECT_VOCAB = {"ExceptIf": "refinement", "Alternative": "alternative"}
+
+
+def rule_select_per_row(db: ProgramDB) -> List[Instance]:
+    """A conclusion selector exposes, while a row is handed on, the conclusions selected FOR THAT ROW (its parent applies
+    whatever is in `_conclusion_` when it receives the row).  So whatever a selector puts into `_conclusion_` before a yield
+    is withdrawn again (`_conclusion_.clear()`) before the next row is produced: on every path from a selection through a
+    yield, a clear comes before the next iteration of any loop and before the end of the generator."""
+    from ..cfg import CFG
+    out = []
+    cs = db.cls("ConclusionSelector")
+    n = 0
+    for c in sorted(cs.all_subclasses(), key=lambda k: k.qualname):
+        m = c.methods.get("_evaluate__")
+        if m is None or not m.is_generator:
+            continue
+        cfg = CFG(m)
+
+        def calls_in(nd):
+            return [x for x in ast.walk(nd.ast)] if nd.ast is not None and nd.kind in ("stmt", "return") else []
+
+        def is_select(nd) -> bool:
+            for x in calls_in(nd):
+                if isinstance(x, ast.Call) and isinstance(x.func, ast.Attribute):
+                    if x.func.attr == "update_conclusion" and isinstance(x.func.value, ast.Name) and x.func.value.id == "self":
+                        return True
+                    if x.func.attr in ("update", "add") and unparse(x.func.value) == "self._conclusion_":
+                        return True
+            return False
+
+        def is_clear(nd) -> bool:
+            return any(isinstance(x, ast.Call) and isinstance(x.func, ast.Attribute) and x.func.attr == "clear"
+                       and unparse(x.func.value) == "self._conclusion_" for x in calls_in(nd))
+        selects = [nd for nd in cfg.nodes if is_select(nd)]
+        if not selects:
+            continue
+        for s in selects:
+            n += 1
+            # yields reachable from the selection with the selection still standing
+            reach = _reach(cfg, s.id, is_clear)
+            bad = None
+            for yid in sorted(reach):
+                y = cfg.nodes[yid]
+                if not y.has_yield:
+                    continue
+                after = _reach(cfg, yid, is_clear)
+                for t in sorted(after):
+                    tn = cfg.nodes[t]
+                    if t != yid and (tn.kind == "for" or t == cfg.exit):
+                        bad = (y, tn)
+                        break
+                if bad:
+                    break
+            key = f"{m.short}[{s.src()[:50]}]"
+            vocab = SELECT_VOCAB.get(c.name)
+            if bad is None:
+                out.append(inst("SELECT-PER-ROW", HOLDS, m, key, "what is selected for a row is withdrawn before the next row is produced", line=s.lineno))
+            elif vocab is None:
+                out.append(inst("SELECT-PER-ROW", INFO, m, key,
+                                f"not withdrawn after `{bad[0].src()[:40]}`; {c.name} is not built by refinement()/alternative() (the "
+                                f"vocabulary of the property), observation only", line=s.lineno))
+            else:
+                out.append(inst("SELECT-PER-ROW", VIOLATION, m, key,
+                                f"the conclusions selected here are still in `_conclusion_` when the generator goes on after "
+                                f"`{bad[0].src()[:40]}` (line {bad[0].lineno}) to "
+                                f"{'the next iteration of the loop at line ' + str(bad[1].lineno) if bad[1].kind == 'for' else 'its end'}: the next row of "
+                                f"this {vocab} is handed on with the conclusions selected for an earlier row", line=s.lineno))
+    if n == 0:
+        raise AnalysisError("no conclusion selection statement found in ConclusionSelector._evaluate__ implementations")
+    return out
+
+
+def _reach(cfg, start: int, blocked) -> Set[int]:
+    seen = {start}
+    stack = [start]
+    while stack:
+        x = stack.pop()
+        for e in cfg.succ[x]:
+            if e.kind != "n" or e.dst in seen:
+                continue
+            if blocked(cfg.nodes[e.dst]):
+                continue
+            seen.add(e.dst)
+            stack.append(e.dst)
+    return seen
